@@ -20,7 +20,8 @@ func init() {
 			"signedToken.Verify with Roots built only from those certificates and CurrentTime = the timestamp, ValidateTimestampingCertChain, BoundedAfter(NotBefore) and BoundedBefore(NotAfter) for every certificate of the signing chain, " +
 			"and revocation of the TSA chain (validator error and every aggregate other than OK fail-closed); (e) the authentic-timestamp result for notary.x509 is exactly the timestamp function's error. " +
 			"Shapes: instants compared with Before/After/Compare are one canonical relation; a whole-chain check is an inline loop, a module helper containing the loop, or slices.IndexFunc/ContainsFunc with a predicate; " +
-			"a result's error may be a literal per exit or one variable assigned on the branches, and the result may be built by a constructor function that is handed the error; provenance is read in the frame of the single caller of an unexported function (struct-of-options fields, pointer to a read-only local copy, narrowed parameters); " +
+			"a result's error may be a literal per exit or one variable assigned on the branches — a local that one literal reports, or the Error field of a result object created up front (by a literal or a constructor), judged per reaching definition of the field — and the result may be built by a constructor function that is handed the error; " +
+			"the expiry gate may be established by a module helper that is handed the expiry (a predicate or an error function, judged with the caller's arguments) or kept in a boolean local before the branch; an index loop is a whole-chain scan only if its counter runs 0,1,2,...; captured variables of a closure predicate are read as their read-only bindings; provenance is read in the frame of the single caller of an unexported function (struct-of-options fields, pointer to a read-only local copy, narrowed parameters); " +
 			"the timestamp function is designated by its role (its error is the notary.x509 result) and judged as a whole: the decision table follows the helpers that take part in the decision (answering a boolean or an enumeration), the must-pass facts of the timestamp path are composed through the helpers the function gates on.",
 		NotCov:  "RFC 3161 token verification (tspclient-go), equal-instant boundaries of time.Time comparisons, the revocation aggregator itself (C05).",
 		Trusted: []string{"go/types, go/ssa", "tspclient-go", "time.Time Before/After/Compare/IsZero", "slices.IndexFunc/ContainsFunc, strings.Cut/HasPrefix", "notation-core-go x509.ValidateTimestampingCertChain"},
@@ -68,34 +69,37 @@ func runC06(c *Ctx) {
 
 func c06Expiry(c *Ctx, EXP *ssa.Function) {
 	w := c.W
-	fi := w.Info(EXP)
 	fr := c06FrameOf(w, EXP)
 	c.SeenFn(EXP.String())
 	rule := "must-check (disjunctive): the expiry result is error-free only if SignedAttributes.Expiry is zero or time.Now() is before it"
-	isExp := func(s string) bool { return strings.HasSuffix(s, ".SignedAttributes.Expiry") }
 	// The passing edges are recognised by the fact they carry, in canonical form (c06Canon): "the expiry is the zero time" and
 	// "time.Now() is strictly before the expiry" — whether the latter is spelled now.Before(e), e.After(now) or with Compare.
-	// The error may be returned in a literal per exit or collected in a variable that one literal reports (c06Witness).
-	kinds := map[string]bool{}
-	cut := fi.edgesMatching(func(l string, _ *ssa.If, _ bool) bool {
-		op, args := splitTopArgs(fr.lift(c06Canon(l)))
-		switch {
-		case op == "T" && len(args) == 1 && strings.HasPrefix(args[0], "call:(time.Time).IsZero(") && strings.HasSuffix(args[0], ")"):
-			if isExp(strings.TrimSuffix(strings.TrimPrefix(args[0], "call:(time.Time).IsZero("), ")")) {
-				kinds["zero"] = true
-				return true
-			}
-		case op == "BEFORE" && len(args) == 2:
-			if args[0] == "call:time.Now()" && isExp(args[1]) {
-				kinds["before"] = true
-				return true
-			}
+	// The fact may be established by a module helper that is handed the expiry (a predicate, or a function answering an
+	// error) or be kept in a boolean local before it is branched on (c06Gate).
+	// The error may be returned in a literal per exit, collected in a variable that one literal reports, or assigned to the
+	// field of a result created up front (c06Witness).
+	g := &c06Gate{w: w, kinds: map[string]bool{}, pass: c06ExpiryPass}
+	wit := g.witness(EXP, Mode{Kind: mObj, K: 0}, fr.lift, nil)
+	c.Evals += 1 + g.evals
+	c.Check(len(g.kinds) == 2 && wit == nil, "expiry/clock", rule, w.FnPos(EXP), "an error-free expiry result is possible for a non-zero expiry that is not after time.Now() (or the comparison uses another clock/operand)", wit...)
+}
+
+// c06ExpiryPass: the (lifted, canonical) label says "the signature's expiry is the zero time" or "time.Now() is strictly
+// before the signature's expiry".
+func c06ExpiryPass(l string) string {
+	isExp := func(s string) bool { return strings.HasSuffix(s, ".SignedAttributes.Expiry") }
+	op, args := splitTopArgs(l)
+	switch {
+	case op == "T" && len(args) == 1 && strings.HasPrefix(args[0], "call:(time.Time).IsZero(") && strings.HasSuffix(args[0], ")"):
+		if isExp(strings.TrimSuffix(strings.TrimPrefix(args[0], "call:(time.Time).IsZero("), ")")) {
+			return "zero"
 		}
-		return false
-	})
-	wit := c06Witness(fi, Mode{Kind: mObj, K: 0}, entryState(), cut)
-	c.Evals++
-	c.Check(len(kinds) == 2 && wit == nil, "expiry/clock", rule, w.FnPos(EXP), "an error-free expiry result is possible for a non-zero expiry that is not after time.Now() (or the comparison uses another clock/operand)", wit...)
+	case op == "BEFORE" && len(args) == 2:
+		if args[0] == "call:time.Now()" && isExp(args[1]) {
+			return "before"
+		}
+	}
+	return ""
 }
 
 func stripNot(v ssa.Value, truth *bool) ssa.Value {
